@@ -21,7 +21,7 @@ CLAIMS: dict = {
              '_batch and _collect_frames enter the proof by contract; the contracts are checked by bounded stand-ins '
              '(labelled bounded, not counted). The composition of the three layers into the per-observable statements '
              'is hand-argued (DESIGN 5 C01.4). XML reading itself is C02/C20. Related known findings K1, K13 are '
-             'reported under C04/C05.',
+             'reported under C04/C05. Audit findings recorded with probes: K27 (entry_rank of senses an extension adds to a base entry), K28 (Unicode white space in text), K29 (frames sharing their text).',
         technique='contract-based deductive verification: AST->VC symbolic execution + SQL->FOL, family equality '
                   'obligations discharged by z3',
         engines=['pyvc', 'sqlvc', 'bounded']),
@@ -42,7 +42,7 @@ CLAIMS: dict = {
              '4 versions, equality + byte fixed point - labelled bounded, not counted as proved). A-SPLIT, '
              'A-PY-INTSTR (int(str(n)) == n). Known finding K7 (optional attributes holding the empty string are '
              'dropped) is reported as KNOWN-FINDING and re-proved under its restriction. The per-kind results compose '
-             'to whole resources by structural induction (hand argument, DESIGN).',
+             'to whole resources by structural induction (hand argument, DESIGN). Known findings K19 (explicit lexicalized/phonemic = true is not written back; compared strictly, restriction \'present => False\'), K24 (xml:space=preserve text; the obligations assume whitespace-normalised text).',
         technique='contract-based deductive verification: symbolic execution of writer, reader and validator source '
                   '(AST->VC), per-field equality obligations discharged by z3; bounded native round trip for the '
                   'serialisation layer',
@@ -73,7 +73,7 @@ CLAIMS: dict = {
              'implementation of the documented table.',
         note='A-GLOB (SQLite GLOB) is exercised only by the bounded part; A-SPLIT; specifier lists longer than two tokens '
              'are covered by the per-token structure of the loop (each token handled independently, duplicates filtered '
-             'through one set). Fixed finding F9.',
+             'through one set). Fixed finding F9. wn.remove(specifier) removes exactly the selection: bounded stand-in on the same databases (fixed finding F22).',
         technique='contract-based deductive verification: symbolic execution with z3 strings + SQL AST obligations; bounded '
                   'end-to-end stand-in for GLOB semantics',
         engines=['pyvc', 'sqlvc', 'bounded']),
@@ -98,7 +98,7 @@ CLAIMS: dict = {
              'proved as row image of _insert_forms; z3 lemma linking the SQL condition to "f = q or normalize(f) = q".',
         note='normalize_form and the lemmatizer are uninterpreted functions (A-UNI); the order-preserving de-duplication '
              'loop is summarised by the engine (A-DEDUP) and cross-checked by bounded native execution of the extracted '
-             'loop; A-SQLITE. Morphy itself is C17; scoping of the forms join is C04 (K1).',
+             'loop; A-SQLITE. Morphy itself is C17; scoping of the forms join is C04 (K1). Fixed finding F21 (lemmatizer proposing a part of speech without forms): the contract drops empty proposals, as the statement says.',
         technique='contract-based deductive verification: flow equivalence by AST-level symbolic execution + SQL->FOL result '
                   'characterisation, z3',
         engines=['pyvc', 'sqlvc', 'bounded']),
@@ -111,7 +111,7 @@ CLAIMS: dict = {
              'in z3 over those contracts.',
         note='Known finding K2: Sense.word()/synset() resolve by identifier among all selected lexicons (fails with two '
              'versions in scope) - reported as KNOWN-FINDING and re-proved under "identifiers unique across the scope". '
-             'Inferred (*INFERRED*) synsets are outside the statement (stored entities). A-SQLITE, A-ORDER-FIRST.',
+             'Inferred (*INFERRED*) synsets are outside the statement (stored entities). A-SQLITE, A-ORDER-FIRST. Fixed finding F24: ILI identity includes the table (existing / proposed).',
         technique='contract-based deductive verification: symbolic execution of the real methods + z3 lemmas over query '
                   'contracts',
         engines=['pyvc', 'sqlvc']),
@@ -124,7 +124,7 @@ CLAIMS: dict = {
              '(exactness, simple paths, termination) are checked by BOUNDED stand-ins on the real methods.',
         note='Bounded (not proved): dict-accumulating views on all pair lists <= 3; closure/relation_paths on all '
              'digraphs <= 4 nodes; termination beyond the bound rests on A-MATH. Known finding K10 (relation_map loses a '
-             'target when two scope synsets share the ILI). Fixed finding F4 (get_related_synsets() without types).',
+             'target when two scope synsets share the ILI). Fixed finding F4 (get_related_synsets() without types). Known finding K26 (relation_map merges relations differing only in other metadata); fixed finding F23 (closure through placeholders; stand-in on a real database with an expand lexicon).',
         technique='contract-based deductive verification (SQL->FOL + flows, z3) with bounded stand-ins for the worklist '
                   'loops',
         engines=['pyvc', 'sqlvc', 'bounded']),
@@ -151,7 +151,7 @@ CLAIMS: dict = {
         note='Not a proof: the worklist loops over mutable sets/dicts (relation_paths, _shortest_hyp_paths, '
              'taxonomy_depth) are outside what the VC generator expresses (aliasing of per-branch visited sets, '
              'dict-of-lists accumulation); loop invariants were not mechanised. Termination beyond the bound: A-MATH. '
-             'Known finding K4 (cycles of length >= 2).',
+             'Known finding K4 (cycles of length >= 2). Known findings K22 (walks started at an inferred synset) and K30 (simulate_root across two lexicons) carry probes on real databases.',
         technique='contract-based verification family: bounded stand-in (exhaustive small-scope enumeration on the real '
                   'functions) + deductive obligations for the straight-line pieces',
         engines=['bounded', 'pyvc']),
@@ -163,7 +163,7 @@ CLAIMS: dict = {
              'unknown words, distribute_weight, smoothing 0/1) on every digraph <= 3 (quick) / 4 (thorough) nodes x 5 '
              'corpora, and for load() on generated weight files.',
         note='compute()/load() are bounded, not proved (worklist over a mutable table; file parsing). A-FLOAT, A-MATH. '
-             'Fixed findings F3 (weight once per PATH on diamonds) and F6 (KeyError for satellite adjectives).',
+             'Fixed findings F3 (weight once per PATH on diamonds) and F6 (KeyError for satellite adjectives). Known finding K21: hypernyms of another part of speech get no weight (was assumption A-POS).',
         technique='contract-based verification family: z3 obligations over the real probability/IC functions + bounded '
                   'stand-in for compute()/load()',
         engines=['pyvc', 'bounded']),
@@ -178,7 +178,7 @@ CLAIMS: dict = {
         note='A-FLOAT (floats as reals, log strictly increasing), taxonomy contracts = C13, weights contract = C15, A-POS '
              '(hypernyms share the part of speech up to a/s). Known findings K14 (wup takes the first of an unordered '
              'list of lowest common hypernyms) and K15 (res uses the least informative one). Fixed finding F6 '
-             '(KeyError for satellite adjectives).',
+             '(KeyError for satellite adjectives). K22 / K30 (see C13) affect wup/path through inferred lowest common hypernyms and pairs from two lexicons.',
         technique='contract-based deductive verification: symbolic execution of the real functions over uninterpreted graph '
                   'contracts, z3 (reals); bounded stand-in on small digraphs',
         engines=['pyvc', 'bounded']),
@@ -193,7 +193,7 @@ CLAIMS: dict = {
              '_find_helper contract (C09) for generic lemmatizer proposals.',
         note='Morphy.__init__ (dict-of-sets accumulation) is a bounded stand-in on enumerated small inventories. z3 '
              'sequence theory trusted for endswith/slicing/concatenation. Completeness is claimed for the parts of '
-             'speech Morphy handles (n, v, a, s, r).',
+             'speech Morphy handles (n, v, a, s, r). Known finding K23: words of other parts of speech (c, p, x, u) are ignored by an initialized Morphy. Fixed findings F20, F21.',
         technique='contract-based deductive verification: AST-level symbolic execution with z3 strings, per-rule obligations',
         engines=['pyvc', 'bounded']),
     'C18': dict(
@@ -207,7 +207,7 @@ CLAIMS: dict = {
              'wn.Error of _insert_sense_relations.',
         note='W403/W404 (tuple-keyed accumulations whose content depends on set iteration order, see C16) are covered for '
              'no-raise only. W501 exactness is claimed for unique synset ids. collections.Counter semantics assumed '
-             '(A-PY-COUNTER). Context fields of the items are not compared. Fixed finding F1 (KeyError in W501).',
+             '(A-PY-COUNTER). Context fields of the items are not compared. Fixed finding F1 (KeyError in W501). W203 is decided by a labelled small-scope enumeration (the repaired code uses dict.fromkeys(generator), which the interpreter does not follow). Fixed findings F25 (W203), F26 (E101).',
         technique='contract-based deductive verification: AST-level symbolic execution of the real checks over records '
                   'generated from the lmf TypedDicts, z3',
         engines=['pyvc']),
@@ -260,7 +260,7 @@ CLAIMS: dict = {
              'by load() and add() (incl. missing required attributes on 28 element/attribute pairs); add() leaves every table '
              'unchanged after each rejected document. Known finding K6: scan_lexicons is a regular expression and '
              'disagrees with load() on four kinds of valid start tags. Python run with -O would drop the assertions '
-             '(unchecked).',
+             '(unchecked). Known finding K25: add() returns without exception when the regex pre-scan sees nothing to add (two early returns before load()); K6 restriction widened (white space around \'=\', comments, empty values, line breaks).',
         technique='contract-based deductive verification: symbolic execution of the reader handlers per element/'
                   'version/occurrence with decided post-conditions + z3 obligations; bounded single-fault sweep on the '
                   'real functions',
@@ -281,7 +281,7 @@ CLAIMS: dict = {
              'export versions, compared with the source and through the public API): bounded, not counted. '
              '_export_syntactic_behaviours_1_0 (set iteration) and _precheck are covered by the bounded sweep only. '
              'Known findings K16 (ILIDefinition of an existing ILI), K17 (links of id-less frames in >= 1.1 exports), '
-             'K18 (frames without senses); fixed: F7, F8, F12, F13.',
+             'K18 (frames without senses); fixed: F7, F8, F12, F13. Known findings K9 (duplicate relation exported once) and K24 (preserved white space) are probes of the bounded sweep.',
         technique='contract-based deductive verification: flow equivalence of each export function with its contract '
                   'under query stubs (AST->VC symbolic execution, z3); bounded native export round trip',
         engines=['pyvc', 'bounded']),
